@@ -12,6 +12,9 @@ pub fn build(family: &str, rng: &mut Rng, index: u64) -> Option<Plan> {
 		"F2n" => f2n(index),
 		"F2" => f2(index),
 		"F4" => Some(f4(rng, index)),
+		// issuance swarm: standard hooks (C01/C04/C05/C13) and generated hook tables (C10)
+		"F1" => Some(super::f1::build(rng, &super::f1::F1Opts { max_certs: 3, max_ids: 8, generated_hooks: false, hard_hook_failures: false, owners: true, eab: true, allow_rsa4096: index % 97 == 0 })),
+		"F1h" => Some(super::f1::build(rng, &super::f1::F1Opts { max_certs: 2, max_ids: 4, generated_hooks: true, hard_hook_failures: index % 3 == 0, owners: false, eab: false, allow_rsa4096: false })),
 		"F3" => Some(f3(rng, index)),
 		"F3m" => Some(f3m(rng, index)),
 		_ => None,
